@@ -57,6 +57,9 @@ def impl_case(case):
     if case["via"] in ("model", "both"): kw["Model"] = M
     if case["via"] in ("interface", "both"):
         kw["Interface"] = SafeModelCSimInterface(M) if case["safe"] else ModelCSimInterface(M)
+        if case.get("grid") == "square":
+            # the user sets the interface's initial state from an INTEGER array of molecule counts (same values): S3_C07
+            kw["Interface"].py_set_initial_state(np.array([int(m["x0"][s_]) for s_ in M.get_species_list()]))
     py_seed_random(case["seed"])
     try:
         res = py_simulate_model(T, **kw)
